@@ -17,7 +17,7 @@ from ref import dtyp, refdc, rpce
 from simworld import prng, world as W
 
 DC = offline.DC
-LINE_A, LINE_B = 200_000, 600
+LINE_A, LINE_B = 60_000, 300
 MEM_C, MEM_D = 4_000_000, 4_000  # bytes: C + D * len(reply)
 
 
@@ -119,7 +119,7 @@ def run(case) -> dict:
     world.routes.pop((DC, dc.gkdi_port), None)  # nothing listens behind the mapper: only the dialled port is observed
     tracemalloc.start()
     with world.installed():
-        with common.LineBudget(LINE_A + LINE_B * (len(reply) + 2000)) as lb:
+        with common.LineBudget(LINE_A + LINE_B * (len(reply) + 500)) as lb:
             if fl == "sync":
                 out = drive.classify(lambda: dclient._sync_get_key(DC, sd, None, 1, 2, 3, auth_protocol="negotiate"))
             else:
@@ -165,7 +165,7 @@ class C18(common.Check):
             "anywhere / absent, status 0 and error codes: the port dialled next (observed at the network seam) must be the TCP port of the first "
             "tower with a TCP floor; error status or no TCP floor must raise without dialling. Hostile: tower / max / actual counts and tower "
             "lengths rewritten to {2^16..2^64-1} over short bodies, floor counts 0xFFFF, floor lengths past the end, truncation at every "
-            "offset, zeros, PRNG bytes: traced lines <= 200000+600*len, peak traced allocation <= 4MB+4000*len. Non-trivial = every case; "
+            "offset, zeros, PRNG bytes: traced lines <= 60000+300*(len+500), peak traced allocation <= 4MB+4000*len. Non-trivial = every case; "
             "distinct = distinct (kind, seed, flavour).")
     components = {"client": "real (_sync_get_key/_async_get_key first hop, _process_ept_map_result, EptMapResult.unpack, Floor.unpack)",
                   "endpoint mapper": "Byzantine scripted peer / reference encoder (ref.rpce)", "network seam": "simulated: the dialled port is an observation",
